@@ -32,6 +32,10 @@ RULES = {
           "tolerates its absence; the temp directory is removed by an atexit hook",
     "R6": "an animated draw() leaves the image's current frame untouched (saved before, restored in finally) and rendering never turns a dynamic "
           "size into a fixed one (_renderer restores it in finally)",
+    "R8": "no seek request is lost: in ImageIterator._animate a value received by `sent = yield ...` reaches the update of the frame number (a store to n that reads "
+          "sent) on every path on which it is not None, before the next `yield` overwrites it",
+    "R7": "no use after release: once an image has been released (`_close_image(v)` / `v.close()` on a local v) no path through the function reaches an operation on it "
+          "(v passed to a call, a method of v called) before v is rebound; identity tests and plain attribute reads (mode, size) are not operations",
 }
 CM, BL, KT, IT = "image/common.py", "image/block.py", "image/kitty.py", "image/iterm2.py"
 FRESH_IMG = ("Image.open", "Image.new", "Image.frombytes", "PIL.Image.frombytes", "PIL.Image.open", "io.BytesIO", "io.StringIO", "open", "BytesIO", "StringIO")
@@ -324,6 +328,95 @@ def run(ck, m):
     ff = m.get(CM, "BaseImage.from_file")
     wimg = next((w for w in body_walk(ff) if isinstance(w, ast.With) and [norm(i.context_expr) for i in w.items] == ["img"]), None)
     ck.ob("R5", ff, wimg is not None and any(norm(s) == "new = cls(img, **kwargs)" for s in wimg.body), "from_file must close the probe image it opened (with img:)", stmt="from_file: with img")
+
+    # ---- R8: a value sent to the generator (seek) is consumed before the next yield overwrites it ------------------------------------------
+    g8 = CFG(an)
+    ynodes = [n_ for n_ in g8.nodes if n_.kind == "stmt" and isinstance(n_.ast, ast.Assign) and isinstance(n_.ast.value, ast.Yield) and any(norm(t_) == "sent" for t_ in n_.ast.targets)]
+    ck.expect(len(ynodes) >= 2, f"_animate: `sent = yield frame` sites found: {len(ynodes)}")
+
+    def _consumes(n_):
+        return n_.kind == "stmt" and isinstance(n_.ast, (ast.Assign, ast.AugAssign, ast.AnnAssign)) and not isinstance(getattr(n_.ast, "value", None), ast.Yield) \
+            and any(isinstance(t_, ast.Name) and t_.id == "n" for t_, _s in stores_in(n_.ast)) and "sent" in names_loaded(n_.ast.value)
+
+    def _edge8(a_, lab, d_):
+        if lab.startswith(("e:", "p:")):
+            return False
+        if a_.kind == "test" and a_.ast is not None:
+            t_ = norm(getattr(a_.ast, "test", a_.ast))
+            if (t_ == "sent is None" and lab == "true") or (t_ == "sent is not None" and lab == "false"):
+                return False          # nothing was sent on this branch
+        return True
+    for y_ in ynodes:
+        p8 = g8.search([y_], lambda n_: n_ in ynodes, avoid=_consumes, edge_ok=_edge8)
+        ck.ob("R8", y_.ast, p8 is None, f"a frame number sent to the generator here (seek) can reach the next `yield` without having been stored into the frame counter ({fmt_path(p8) if p8 else ''}): "
+              "that request is dropped - the next frame is not the one last asked for", stmt=f"_animate: a sent value is consumed before the next yield (#{ynodes.index(y_) + 1})")
+
+    # ---- R7: no use after release (typestate released -> no operation, over the function's flow graph) ------------------------------------
+    from tiv.cfg import CFG as _CFG7, fmt_path as _fmt7
+
+    def _release_of(c):
+        if isinstance(c, ast.Call) and isinstance(c.func, ast.Attribute):
+            if c.func.attr == "_close_image" and len(c.args) == 1 and isinstance(c.args[0], ast.Name):
+                return c.args[0].id
+            if c.func.attr == "close" and not c.args and isinstance(c.func.value, ast.Name) and c.func.value.id not in ("self", "cls"):
+                return c.func.value.id
+        return None
+    n7 = 0
+    for rel_, q_, fn_ in m.functions():
+        if not rel_.startswith("image/"):
+            continue
+        rels_ = [(c, _release_of(c)) for c in body_walk(fn_) if _release_of(c)]
+        if not rels_:
+            continue
+        g7 = _CFG7(fn_)
+        for c, v in rels_:
+            n7 += 1
+
+            def _src(n):
+                if n.ast is None:
+                    return None
+                if n.kind == "iter":
+                    return n.ast.iter
+                if n.kind == "test":
+                    return getattr(n.ast, "test", n.ast)
+                if n.kind == "with_enter":
+                    return n.ast.context_expr
+                if n.kind != "stmt" or isinstance(n.ast, (ast.If, ast.While, ast.For, ast.Try, ast.With, ast.FunctionDef, ast.ClassDef)):
+                    return None
+                return n.ast
+
+            def uses(n, v=v):
+                src = _src(n)
+                if src is None:
+                    return False
+                for x in ast.walk(src):
+                    if isinstance(x, ast.Name) and x.id == v and isinstance(x.ctx, ast.Load):
+                        p_ = getattr(x, "_p", None)
+                        if isinstance(p_, ast.Compare) and all(isinstance(o, (ast.Is, ast.IsNot)) for o in p_.ops):
+                            continue
+                        if isinstance(p_, ast.Call) and _release_of(p_) == v:
+                            continue
+                        if isinstance(p_, ast.Attribute):
+                            pp_ = getattr(p_, "_p", None)
+                            if not (isinstance(pp_, ast.Call) and pp_.func is p_) or _release_of(pp_) == v:
+                                continue          # a plain attribute read (mode, size, filename), or the release itself
+                        elif not isinstance(p_, (ast.Call, ast.keyword, ast.Starred, ast.Return, ast.Yield, ast.Tuple, ast.List)):
+                            continue              # neither handed to a call nor given away
+                        return True
+                return False
+
+            def rebinds(n, v=v):
+                if n.ast is not None and n.kind == "with_enter":
+                    ov = getattr(n.ast, "optional_vars", None)
+                    return ov is not None and any(isinstance(x, ast.Name) and x.id == v for x in ast.walk(ov))
+                if n.ast is None or n.kind not in ("stmt", "iter") or isinstance(n.ast, (ast.If, ast.While, ast.Try, ast.With, ast.FunctionDef, ast.ClassDef)):
+                    return False
+                tg = n.ast.target if isinstance(n.ast, ast.For) else n.ast
+                return any(isinstance(x, ast.Name) and x.id == v and isinstance(x.ctx, (ast.Store, ast.Del)) for x in ast.walk(tg))
+            p7 = g7.search(g7.nodes_of(enclosing_stmt(c)), uses, avoid=rebinds)
+            ck.ob("R7", enclosing_stmt(c), p7 is None, f"{q_}: `{v}` is released here and then operated on ({_fmt7(p7) if p7 else ''}): for a file- or URL-sourced image the released object is closed, "
+                  "so the later render raises instead of producing the frame", stmt=f"{rel_}::{q_}: no use of `{v}` after `{short(c, 40)}`")
+    ck.expect(n7 >= 8, f"release sites found: {n7}")
 
     # ---- R6 ----------------------------------------------------------------------------
     tr = next((s for s in da.body if isinstance(s, ast.Try) and s.finalbody), None)
